@@ -238,6 +238,66 @@ func checkEscaper(w *World, c *Check, rule string) {
 	flushClosure = flushFn
 	flushHelperFn = flushHelper
 	H := iPhi.Block()
+	// raw writes: input bytes reach the output only through the lazy flush s[start:i] (start the copy cursor, i the scan
+	// position or the end of the input) — every byte of such a run has been through the escape decision of the loop. Any
+	// other write of (a part of) the input — the whole text on the word of a pre-scan, s[i:i+6] because it "already is an
+	// escape" — copies bytes the loop has not judged: the pre-scan is a second, unchecked copy of the escape rules.
+	{
+		isCursor := func(v ssa.Value) bool {
+			if startPhi != nil && v == ssa.Value(startPhi) {
+				return true
+			}
+			if u, ok := v.(*ssa.UnOp); ok && u.Op == token.MUL && startCell != nil && u.X == ssa.Value(startCell) {
+				return true
+			}
+			return false
+		}
+		isEnd := func(v ssa.Value) bool {
+			if v == nil || v == ssa.Value(iPhi) {
+				return true
+			}
+			if call, ok := v.(*ssa.Call); ok {
+				if bi, isB := call.Common().Value.(*ssa.Builtin); isB && bi.Name() == "len" && isSrc(call.Common().Args[0]) {
+					return true
+				}
+			}
+			return false
+		}
+		nRaw := 0
+		for _, b := range esc.Blocks {
+			for _, in := range b.Instrs {
+				call, ok := isWrite(in)
+				if !ok || len(call.Common().Args) != 2 {
+					continue
+				}
+				switch call.Common().StaticCallee().Name() {
+				case "Write", "WriteString":
+				default:
+					continue
+				}
+				data := unwrap(call.Common().Args[1])
+				var whole bool
+				var sl *ssa.Slice
+				if isSrc(data) {
+					whole = true
+				} else if x, isSl := data.(*ssa.Slice); isSl && isSrc(x.X) {
+					sl = x
+				} else {
+					continue
+				}
+				nRaw++
+				key := fmt.Sprintf("%s:raw-write#%d", name, nRaw)
+				switch {
+				case whole:
+					c.bad(rule, key, w.InstrPos(call), "the whole input is written to the output in one go, without the escaper's loop having judged its bytes: whatever decides to take this path is a second copy of the escape rules that nothing checks (a byte it overlooks — the first one, a quote, a backslash — reaches the document raw)")
+				case isCursor(sl.Low) && isEnd(sl.High):
+					c.ok(rule, key, w.InstrPos(call), "the pending run s[start:i]")
+				default:
+					c.bad(rule, key, w.InstrPos(call), fmt.Sprintf("input bytes s[%s:%s] are written verbatim although they are not the pending run of bytes the loop has judged safe (s[start:i]): a backslash, quote or control byte inside them reaches the document unescaped and decodes to a different text", boundStr(sl.Low), boundStr(sl.High)))
+				}
+			}
+		}
+	}
 	// loop body: blocks that H reaches and that reach H
 	inLoop := map[*ssa.BasicBlock]bool{}
 	for _, b := range esc.Blocks {
@@ -1086,4 +1146,11 @@ func eqConstsOf(cond ssa.Value, isSubject func(ssa.Value) bool, depth int) ([]in
 		return ks, len(ks) > 0
 	}
 	return nil, false
+}
+
+func boundStr(v ssa.Value) string {
+	if v == nil {
+		return ""
+	}
+	return shortVal(v)
 }
